@@ -133,6 +133,29 @@ namespace
                     CItem *pos;
                     dlist_for_each_entry(pos, h, lnk) ent.push_back(pos->id);
                     if (ent != m[l]) violate("C01/c-dlist-entry", "%s: dlist_for_each_entry yields %s, reference %s", when, seq(ent).c_str(), seq(m[l]).c_str());
+                    {
+                        // the entry-level accessors: reverse entry iteration, first/last entry, next/prev entry of every element
+                        std::vector<int> rent;
+                        guard = 0;
+                        dlist_for_each_entry_reverse(pos, h, lnk)
+                        {
+                            if (++guard > ni + 2) violate("C01/c-dlist-cycle", "%s: dlist_for_each_entry_reverse on list %d does not end", when, l);
+                            rent.push_back(pos->id);
+                        }
+                        std::reverse(rent.begin(), rent.end());
+                        if (rent != m[l]) violate("C01/c-dlist-entry", "%s: dlist_for_each_entry_reverse (reversed) yields %s, reference %s", when, seq(rent).c_str(), seq(m[l]).c_str());
+                        if (!m[l].empty())
+                        {
+                            if (dlist_first_entry(h, CItem, lnk)->id != m[l].front() || dlist_last_entry(h, CItem, lnk)->id != m[l].back())
+                                violate("C01/c-dlist-entry", "%s: dlist_first_entry / dlist_last_entry of list %d differ from the reference", when, l);
+                            for (size_t q = 0; q + 1 < m[l].size(); q++)
+                            {
+                                CItem *a = it[m[l][q]].get(), *b = it[m[l][q + 1]].get();
+                                if (dlist_next_entry(a, lnk) != b || dlist_prev_entry(b, lnk) != a || dlist_entry(&a->lnk, CItem, lnk) != a)
+                                    violate("C01/c-dlist-entry", "%s: dlist_next_entry / dlist_prev_entry between positions %zu and %zu of list %d differ from the reference", when, q, q + 1, l);
+                            }
+                        }
+                    }
                     if (dlist_size(h) != (int)m[l].size() || dlist_size_reversed(h) != (int)m[l].size())
                         violate("C01/c-dlist-size", "%s: list %d size %d / reversed %d, reference %zu", when, l, dlist_size(h), dlist_size_reversed(h), m[l].size());
                     if ((dlist_empty(h) != 0) != m[l].empty()) violate("C01/c-dlist-empty", "%s: list %d dlist_empty=%d reference size %zu", when, l, dlist_empty(h), m[l].size());
@@ -376,9 +399,9 @@ namespace
     };
     typedef igris::dlist<XItem, &XItem::lnk> XList;
     enum { X_FRONT, X_BACK, X_NEXT_OF, X_PREV_OF, X_NODE_NEXT, X_NODE_PREV, X_POP, X_POP_FRONT, X_POP_BACK, X_UNLINK, X_CLEAR, X_SPLICE,
-           X_ITEM_DEATH, X_LIST_DEATH, X_N };
+           X_ITEM_DEATH, X_LIST_DEATH, X_NEXT_OF_END, X_PREV_OF_END, X_PREV_OF_BEGIN, X_N };
     const char *X_NAME[] = {"move_front", "move_back", "move_next(obj,obj)", "move_prev(obj,obj)", "node.move_next_than", "node.move_prev_than", "pop(obj)", "pop_front",
-                            "pop_back", "unlink", "clear", "splice_all_from", "item_death", "list_death"};
+                            "pop_back", "unlink", "clear", "splice_all_from", "item_death", "list_death", "move_next(obj,end())", "move_prev(obj,end())", "move_prev(obj,begin())"};
 
     struct XDlistWorld : World
     {
@@ -647,6 +670,26 @@ namespace
                     moves++;
                     break;
                 }
+                case X_NEXT_OF_END:
+                case X_PREV_OF_END:
+                case X_PREV_OF_BEGIN:
+                {
+                    // the iterator overloads with the boundary iterators: after end() (the sentinel) is the front, before end()
+                    // the back, before begin() the front
+                    bool to_front = k != X_PREV_OF_END;
+                    if (k == X_PREV_OF_BEGIN && !m[l].empty() && m[l].front() == i) { done = false; break; } // before itself: a self-move
+                    if (k == X_NEXT_OF_END) L.move_next(obj, L.end());
+                    else if (k == X_PREV_OF_END) L.move_prev(obj, L.end());
+                    else L.move_prev(obj, L.begin());
+                    unlink_model(i);
+                    if (to_front) m[l].insert(m[l].begin(), i);
+                    else m[l].push_back(i);
+                    where[i] = l;
+                    st[i] = LINKED;
+                    moves++;
+                    probe("move_relative_to_boundary_iterator");
+                    break;
+                }
                 case X_POP:
                 case X_UNLINK:
                     if (st[i] == UNLINKED) probe("second_removal");
@@ -800,6 +843,13 @@ namespace
                     std::vector<int> e;
                     slist_for_each_entry(pos, sh[l].get(), sl) e.push_back(pos->id);
                     if (e != ms[l]) violate("C01/slist-entry", "%s: slist_for_each_entry yields %s, reference %s", when, seq(e).c_str(), seq(ms[l]).c_str());
+                    if (!ms[l].empty())
+                    {
+                        if (slist_first_entry(sh[l].get(), SItem, sl)->id != ms[l].front()) violate("C01/slist-entry", "%s: slist_first_entry of list %d differs from the reference", when, l);
+                        for (size_t q = 0; q + 1 < ms[l].size(); q++)
+                            if (slist_next_entry(it[ms[l][q]].get(), sl) != it[ms[l][q + 1]].get() || slist_entry(&it[ms[l][q]]->sl, SItem, sl) != it[ms[l][q]].get())
+                                violate("C01/slist-entry", "%s: slist_next_entry after position %zu of list %d differs from the reference", when, q, l);
+                    }
                     for (int i = 0; i < ni; i++)
                         if ((slist_in(sh[l].get(), &it[i]->sl) != 0) != (swhere[i] == l)) violate("C01/slist-in", "%s: slist_in(item %d, list %d) differs from the reference", when, i, l);
                     std::vector<int> x;
@@ -838,6 +888,13 @@ namespace
                         h.push_back(hid(hn));
                     }
                     if (h != mh[l]) violate("C01/hlist-forward", "%s: hlist %d yields %s, reference %s", when, l, seq(h).c_str(), seq(mh[l]).c_str());
+                    if (!mh[l].empty())
+                    {
+                        if (hlist_first_entry(hh[l].get(), SItem, hn)->id != mh[l].front()) violate("C01/hlist-entry", "%s: hlist_first_entry of list %d differs from the reference", when, l);
+                        for (size_t q = 0; q + 1 < mh[l].size(); q++)
+                            if (hlist_next_entry(it[mh[l][q]].get(), hn) != it[mh[l][q + 1]].get() || hlist_entry(&it[mh[l][q]]->hn, SItem, hn) != it[mh[l][q]].get())
+                                violate("C01/hlist-entry", "%s: hlist_next_entry after position %zu of list %d differs from the reference", when, q, l);
+                    }
                 }
             };
             check("init");
@@ -855,6 +912,16 @@ namespace
                     break;
                 case S_POP:
                 {
+                    if (!ms[l].empty() && (i & 1))
+                    {
+                        // the entry form of the same operation (only defined for a non-empty list)
+                        SItem *e = slist_pop_first_entry(sh[l].get(), SItem, sl);
+                        if (e != it[ms[l].front()].get()) violate("C01/slist-pop", "slist_pop_first_entry did not return the first item (%d)", ms[l].front());
+                        swhere[ms[l].front()] = -1;
+                        ms[l].erase(ms[l].begin());
+                        pops++;
+                        break;
+                    }
                     slist_head *n = slist_pop_first(sh[l].get());
                     if (ms[l].empty())
                     {
